@@ -36,6 +36,8 @@ func runC12(r *oblig.Report) {
 	// an undetected clash makes the last file win, so the outcome depends on the order of the files (shared with C07)
 	r.Rule("C07.8", "instance-table", "conflict membership lists are rebuilt from the live object per item", 2)
 	e5path.FreshMembership(c.P, r, "C07.8")
+	r.Rule("C07.9", "path-enumeration", "an extension's relations are adopted wholesale only after the base type itself was found to have none", 1)
+	e5path.LiveAdoption(c.P, r, "C07.9")
 	r.Analysed["order_source_loops"] = len(a.Loops)
 	e3order.SelfTest(r)
 }
